@@ -239,7 +239,19 @@ def gen_hydro(trees):
             raise Unsupported('augmented assignment in squash_atoms changed shape')
         nm = const(a.target.slice, str, 'concatenated attribute')
         names.append(nm)
+    # the hydrogen count of the merged atom: `kept['hcount'] = min(kept['hcount'], removed['hcount'])`
+    mins = calls_in(fn, 'min')
+    if len(mins) != 1 or len(mins[0].args) != 2 or mins[0].keywords:
+        raise Unsupported('squash_atoms: expected exactly one min(a, b) call (hydrogen count of the merged atom)')
+    keys = []
+    for a in mins[0].args:
+        if not (isinstance(a, ast.Subscript) and isinstance(a.slice, ast.Constant) and isinstance(a.slice.value, str)):
+            raise Unsupported('squash_atoms: arguments of min are not <dict>[<constant>]')
+        keys.append(a.slice.value)
+    if keys[0] != keys[1]:
+        raise Unsupported('squash_atoms: min compares different attributes')
     out += '(* cgsmiles/resolve.py: squash_atoms *)\n'
+    out += 'Definition squash_min_attr : pystr := %s.\n' % coq_str(keys[0])
     out += 'Definition squash_prefix : pystr := %s.\n' % coq_str(prefix)
     out += 'Definition squash_edge_attr : pystr := %s.\n' % coq_str(edge_attr)
     out += 'Definition squash_self_loops : bool := %s.\n' % ('true' if self_loops else 'false')
